@@ -19,7 +19,7 @@ THEOREMS = json.loads((Path(__file__).parent / "core_theorems.json").read_text()
 
 # generator profiles per property: (profile, share of the scenario budget)
 PROFILES = {
-    "C01": [("value", 0.5), ("mixed", 0.3), ("agree", 0.4)],
+    "C01": [("value", 0.5), ("mixed", 0.3), ("agree", 0.4), ("pool", 0.3)],
     "C02": [("spend", 0.6), ("mixed", 0.4)],
     "C03": [("owner", 0.6), ("mixed", 0.4)],
     "C04": [("shape", 0.5), ("mixed", 0.3), ("offgrid", 0.2)],
@@ -27,7 +27,7 @@ PROFILES = {
     "C06": [("fork", 0.7), ("mixed", 0.3)],
     "C07": [("mixed", 0.4), ("alias", 0.2), ("fork", 0.5)],
     "C08": [("catchup", 0.8), ("mixed", 0.2)],
-    "C10": [("income", 0.6), ("alias", 0.2), ("mixed", 0.2)],
+    "C10": [("income", 0.6), ("alias", 0.2), ("mixed", 0.2), ("fork", 0.3)],
     "C11": [("pool", 0.5), ("agree", 0.5), ("mixed", 0.2)],
     "C12": [("alias", 0.6), ("mixed", 0.4)],
     "C13": [("faults", 0.7), ("mixed", 0.3)],
